@@ -678,7 +678,7 @@ pub async fn start_replication_thread(
                                     op_log_id_in,
                                 )
                             })
-                            .fold(Ok(0), |y, x| match (y, x) {
+                            .fold(Ok(op_log_id_in), |y, x| match (y, x) {
                                 (Ok(id), Ok(_)) => Ok(id),
                                 (Err(e), _) => Err(e),
                                 (_, Err(e)) => Err(e),
